@@ -64,7 +64,7 @@ def run(ctx):
         pool_e.append(spell(m, rng)[0])
     M = ApiModel(ctx, sf, check_model=False)
     try:
-        for h in range(80 if quick else 1200):
+        for h in range(80 if quick else 4000):
             M.reset()
             c0 = cache_probe()
             warm_before_switch = False
